@@ -14,17 +14,18 @@ from ..orchproto import ProtocolRecorder
 SHAPES = ["path4", "star4", "cycle4", "tritail", "kite", "path5"]
 
 
-def one_run(hid, inst, dep, leaving, sseed):
+def one_run(hid, inst, dep, leaving, sseed, second=None):
+    """-> list of (record, meta): one per removal event of the run (`second`: pick a second event among the survivors)"""
     r = random.Random(sseed)
     dcop, cg, algo_def, dist, names, comps = deployment(inst, dep, algo="dsa")
     prec = ProtocolRecorder(comps).install()
     try:
-        return _one_run(hid, inst, dep, leaving, sseed, r, dcop, cg, algo_def, dist, names, comps, prec)
+        return _one_run(hid, inst, dep, leaving, sseed, r, dcop, cg, algo_def, dist, names, comps, prec, second)
     finally:
         prec.uninstall()
 
 
-def _one_run(hid, inst, dep, leaving, sseed, r, dcop, cg, algo_def, dist, names, comps, prec):
+def _one_run(hid, inst, dep, leaving, sseed, r, dcop, cg, algo_def, dist, names, comps, prec, second):
     w = OrchWorld(dcop, algo_def, cg, dist, infinity=10000, replication="dist_ucs_hostingcosts", seed=sseed)
     w.boot_all(order=r)
     stuck = w.deploy() or w.replicate(dep["k"])
@@ -32,18 +33,34 @@ def _one_run(hid, inst, dep, leaving, sseed, r, dcop, cg, algo_def, dist, names,
         raise MachineryError("set-up failed: %s %s" % (stuck, w.exc[:1]))
     w.run_algo(steps=r.choice([0, 40, 200]))
     dd = w.orch.directory
-    host_before = {c: dd._computations_data.get(c, "") for c in comps}
-    reps_before = {c: sorted(dd.discovery._replicas_data[c]) if c in dd.discovery._replicas_data else [] for c in comps}
     import contextlib, io
-    with contextlib.redirect_stdout(io.StringIO()):       # (the repair code prints its metrics)
-        status = w.remove_agents(leaving)
-    alive = [a for a in names if a not in leaving]
-    hosted = {a: sorted(c.name for c in w.agents[a].computations() if c.name in comps) for a in alive}
-    exc = ["%s: %s handling %s" % (e[0], e[4], e[3]) for e in w.exc]
-    return {"id": hid, "comps": comps, "alive": alive, "left": list(leaving), "hostBefore": host_before, "repsBefore": reps_before,
-            "hosted": hosted, "dir": {c: dd._computations_data.get(c, "") for c in comps}, "status": status or "", "exc": exc}, \
-        {"shape": inst["shape"], "dep": dep, "leaving": list(leaving), "inst": inst, "k": dep["k"], "steps": dict(w.phase_steps), "sched_seed": sseed,
-         "removals": [dict(x) for x in prec.removals]}
+    out, gone, events = [], [], [tuple(leaving)]
+    while events:
+        L = events.pop(0)
+        alive = [a for a in names if a not in gone and a not in L]
+        host_before = {c: dd._computations_data.get(c, "") for c in comps}
+        # (the replica holders that count are live agents)
+        reps_before = {c: sorted(a for a in dd.discovery._replicas_data[c] if a not in gone) if c in dd.discovery._replicas_data else []
+                       for c in comps}
+        nrem, nexc = len(prec.removals), len(w.exc)
+        with contextlib.redirect_stdout(io.StringIO()):       # (the repair code prints its metrics)
+            status = w.remove_agents(L)
+        hosted = {a: sorted(c.name for c in w.agents[a].computations() if c.name in comps) for a in alive}
+        exc = ["%s: %s handling %s" % (e[0], e[4], e[3]) for e in w.exc[nexc:]]
+        out.append(({"id": hid + len(out), "comps": comps, "alive": alive, "left": list(L), "hostBefore": host_before, "repsBefore": reps_before,
+                     "hosted": hosted, "dir": {c: dd._computations_data.get(c, "") for c in comps}, "status": status or "", "exc": exc},
+                    {"shape": inst["shape"], "dep": dep, "leaving": list(leaving), "inst": inst, "k": dep["k"], "steps": dict(w.phase_steps),
+                     "sched_seed": sseed, "event": len(out) + 1, "second": second if out else None, "with_second": bool(second),
+                     "removals": [dict(x) for x in prec.removals[nrem:]]}))
+        gone += list(L)
+        if second and len(out) == 1 and status == "OK" and not exc and len(alive) >= 3:
+            # a second event: the algorithm goes on for a while (the replication of the re-hosted computations completes), then
+            # up to k of the survivors leave
+            w.run(max_steps=second["steps"])
+            r2 = random.Random(second["seed"])
+            n2 = r2.randint(1, min(dep["k"], len(alive) - 2))
+            events.append(tuple(sorted(r2.sample(alive, n2))))
+    return out
 
 
 def run(tier):
@@ -64,10 +81,11 @@ def run(tier):
                 sets = [L for n in range(1, dep["k"] + 1) for L in itertools.combinations(names, n)]
                 if quick:
                     sets = r.sample(sets, min(3, len(sets)))
-                for L in sets:
-                    rec, m = one_run(len(recs), inst, dep, L, r.randrange(10 ** 6))
-                    meta[rec["id"]] = m
-                    recs.append(rec)
+                for li, L in enumerate(sets):
+                    second = {"steps": r.choice([100, 400]), "seed": r.randrange(10 ** 6)} if li % 2 == 0 else None
+                    for rec, m in one_run(len(recs), inst, dep, L, r.randrange(10 ** 6), second):
+                        meta[rec["id"]] = m
+                        recs.append(rec)
     # premise of the statement: replication level k was reached for what the departing agents host, i.e. every orphaned
     # computation still has a replica on a surviving agent (the UCS placement only reaches agents that host neighbour
     # computations; with few hosting agents it can place fewer than k replicas)
@@ -107,7 +125,7 @@ def run(tier):
         if orphaned:
             v.cov["distinct_nontrivial"] += 1
         for clause in verdicts[rec["id"]]:
-            key = {"clause": clause, "k": m["k"], "leaving": len(rec["left"])}
+            key = {"clause": clause, "k": m["k"], "leaving": len(rec["left"]), "event": m["event"]}
             if clause == "handler_raised":
                 # (a handler exception ends the agent's thread in a real run: the survivors of the statement are then fewer)
                 key["exception"] = rec["exc"][0].split(": ")[1] if ": " in rec["exc"][0] else "?"
@@ -115,20 +133,24 @@ def run(tier):
             v.violation(key,
                         "%s (shape %s, %d agents, k=%d, leaving %s): status %r hosted %s directory %s %s" % (
                             clause, m["shape"], len(rec["alive"]) + len(rec["left"]), m["k"], rec["left"], rec["status"], rec["hosted"], rec["dir"], rec["exc"][:1]),
-                        {"inst": m["inst"], "dep": m["dep"], "leaving": m["leaving"], "sched_seed": m["sched_seed"], "outcome": rec})
+                        {"inst": m["inst"], "dep": m["dep"], "leaving": m["leaving"], "sched_seed": m["sched_seed"], "second": m["second"],
+                         "event": m["event"], "outcome": rec})
         if not verdicts[rec["id"]] and orphaned:
             v.sample({"shape": m["shape"], "k": m["k"], "leaving": rec["left"], "orphaned": orphaned, "hosted_after": rec["hosted"], "status": rec["status"]}, cap=3)
     v.cov["exhaustive"] = False
     v.cov["rule"] = ("DCOPs over %d shapes (4-5 DSA computations), TLC-drawn deployments on 4 (quick) / 4-6 agents with ample capacity, k in {1,2}; "
                      "every set of at most k departing agents (quick: 3 drawn per deployment); the removal happens before the algorithm starts, or after "
-                     "40 / 200 agent steps of it; one seeded interleaving per run; non-trivial = the departing agents hosted at least one computation" % len(SHAPES))
+                     "40 / 200 agent steps of it; every other run goes on with a second event (up to k of the survivors leave, 100 / 400 agent steps after the "
+                     "first repair); one seeded interleaving per run; non-trivial = the departing agents hosted at least one computation" % len(SHAPES))
     v.cov["trusted_base"] = ["TLC (Repair.tla)", "vlib/orchrt.py + vlib/agentrt.py (scenario event injected as the orchestrator does it)"]
-    v.assumptions = ["one removal event per run; thread-mode repairs are not run (C21/C22 exercise the thread runtime)"]
+    v.cov["second_events"] = sum(1 for rec in recs if meta[rec["id"]]["event"] == 2)
+    v.assumptions = ["at most two removal events per run; thread-mode repairs are not run (C21/C22 exercise the thread runtime)"]
     return v.finish()
 
 
 def replay(path):
-    d = json.load(open(path))
-    rec, m = one_run(0, d["replay"]["inst"], d["replay"]["dep"], tuple(d["replay"]["leaving"]), d["replay"]["sched_seed"])
+    d = json.load(open(path))["replay"]
+    out = one_run(0, d["inst"], d["dep"], tuple(d["leaving"]), d["sched_seed"], d.get("second"))
+    rec = out[min(d.get("event", 1), len(out)) - 1][0]
     print(json.dumps(rec))
     return 1 if rec["status"] != "OK" or rec["exc"] else 0
